@@ -152,7 +152,7 @@ def shrink_bytes(data, fails):
 
 def c07_cases(rng, tier):
     cases = []   # (tag, bytes)
-    L = 5 if tier == "quick" else 6
+    L = 5 if tier == "quick" else 6       # thorough additionally streams all length-7 strings in chunks (run_c07)
     for n in range(0, L + 1):
         for t in itertools.product(ALPHABET, repeat=n):
             cases.append(("alpha", b"".join(t)))
@@ -280,6 +280,39 @@ def run_c07(rep, tier, seed):
                 else:
                     if not ip.startswith("err"):
                         report("oracle", b, "out-of-range integer not rejected", "err notinteger", ip)
+    if tier == "thorough":
+        # all 11^7 strings of length 7, streamed in 121 chunks (prefix = first two symbols)
+        n7 = 0
+        for a in ALPHABET:
+            for b2 in ALPHABET:
+                chunk = [a + b2 + b"".join(t) for t in itertools.product(ALPHABET, repeat=5)]
+                cl = []
+                for x in chunk:
+                    cl += ["check " + x.hex(), "parse " + x.hex()]
+                i7, m7, d7 = both(cl)
+                n7 += len(cl)
+                if d7 is not None:
+                    k = len(i7)
+                    report("oracle", chunk[k // 2], f"harness process died ({d7.why})", m7[k] if k < len(m7) else "?", "process death")
+                    break
+                if i7 != m7 or any("panic" in x for x in i7):
+                    for j in range(len(chunk)):
+                        ic, ip, mc, mp = i7[2 * j], i7[2 * j + 1], m7[2 * j], m7[2 * j + 1]
+                        if "panic" in (ic, ip):
+                            report("oracle", chunk[j], "RESP check/parse panicked", f"check: {mc}; parse: {mp}", f"check: {ic}; parse: {ip}")
+                        elif ic.startswith("ok") and ip.startswith("ok") and ic.split(" ")[1] != ip.split(" ")[1]:
+                            report("oracle", chunk[j], "check accepted n bytes but parse succeeded with a different length", mc, f"{ic} / {ip}")
+                        elif (ic, ip) != (mc, mp):
+                            report("correspondence", chunk[j], "model and implementation disagree on check/parse", f"check: {mc}; parse: {mp}", f"check: {ic}; parse: {ip}")
+                        if nviol > 5:
+                            break
+                for j in range(0, len(chunk), 997):
+                    if i7[2 * j].startswith(("ok", "err")):
+                        rep.nontrivial(["c07", chunk[j].hex()])
+            if nviol > 5:
+                break
+        rep.cov["evaluations"] += n7
+        rep.cov["exhaustive_length7"] = n7 // 2
     # small-stack run of the deep-nesting cases (child process with a 256 KiB stack)
     deep = [b for tag, b in uniq if tag == "nest"]
     dl = []
